@@ -36,7 +36,14 @@ def evaluate(case, reverse):
     names = case["names"]
     order = list(reversed(names)) if reverse else list(names)
     streams = {n: MersenneTwister(case["seeds"][n]) for n in order}
-    table = make_table(case, [(n, case["table"][n]) for n in order if n in case["table"]])
+    alias = case.get("alias")
+    if alias:
+        # one stream object registered under several ids (in listing order)
+        pairs = alias if not reverse else list(reversed(alias))
+        for new, target in pairs:
+            streams[new] = streams[target]
+    table = make_table(case, [(n, case["table"][n]) for n in order if n in case["table"]]
+                       + [(n, v) for n, v in case["table"].items() if n not in order])
     upd = SimpleStreamUpdater() if case["updater"] == "simple" else StreamSeedUpdater(table)
     out = {}
     try:
